@@ -26,7 +26,7 @@ def run(ctx, R, tier):
     ungated(F, R, rule='B.C05.speed-ungated')
     torn(F, R)
     from ..enginea import run_singular_only
-    run_singular_only(R, F, lambda fn: fn.startswith('clock::') or '<clock::' in fn, floor=5)
+    run_singular_only(R, F, lambda fn: fn.startswith('clock::') or '<clock::' in fn, floor=3)
 
 
 def order(F, R):
